@@ -5,7 +5,16 @@ from pathlib import Path
 HERE = Path(__file__).resolve().parent
 ALL = ["C%02d" % i for i in range(1, 21)]
 # property -> (technique, level text, level note, design section)
-CLAIMED = json.loads((HERE / "manifest_claims.json").read_text())
+CLAIMED = {}
+for f in sorted((HERE / "claims").glob("C*.json")):
+    CLAIMED[f.stem] = json.loads(f.read_text())
+# known findings: per-property fragments known_findings.d/Cxx.json -> one committed file
+kf = {"findings": [], "fixed": []}
+for f in sorted((HERE / "known_findings.d").glob("C*.json")):
+    frag = json.loads(f.read_text())
+    kf["findings"] += frag.get("findings", [])
+    kf["fixed"] += frag.get("fixed", [])
+(HERE / "known_findings.json").write_text(json.dumps(kf, indent=1) + "\n")
 checks = []
 for pid in ALL:
     if pid not in CLAIMED:
@@ -26,7 +35,7 @@ na = [{"property_id": pid, "reason": "not claimed yet: Lean model, theorems and 
       for pid in ALL if pid not in CLAIMED]
 m = {
     "version": 1,
-    "setup_cmd": "cd lean && lake build driver SciVerif",
+    "setup_cmd": "cd lean && lake build",
     "hooks": {
         "guard": "VRTULKA23_SCINUMTOOLS_VERIF",
         "enable": "no source hooks are used; checks import /repo/src (working tree) in-process with VRTULKA23_SCINUMTOOLS_VERIF=1 set",
